@@ -179,6 +179,7 @@ class SockState:
         self.segments: collections.deque[bytes] = collections.deque()  # lazily delivered, one per client recv
         self.server = ServerConn(net, self)
         self.delivered = 0  # server bytes handed to the kernel
+        self.respond_after: float | None = None  # virtual seconds the server takes before the first response byte
         self.stall = False  # server deliberately silent: a recv with nothing pending is a timeout
         self.tls = False
 
@@ -489,6 +490,16 @@ class Net:
             self._event("recv-fault", st.index, n, type(exc).__name__, id(exc))
             self.raised.append(exc)
             raise exc
+        if st.respond_after is not None:
+            # the server needs `respond_after` virtual seconds before its first byte: compare with the socket timeout
+            wait, st.respond_after = st.respond_after, None
+            t = sock.gettimeout()
+            if t is not None and wait > t:
+                self.clock.advance(t)
+                st.respond_after = wait - t
+                self._event("recv-timeout", st.index, n)
+                raise socket.timeout("timed out (virtual read, server still thinking)")
+            self.clock.advance(wait)
         self._flush(st)
         if self._readable(sock) and not (st.peer_closed and st.fault_when_drained is not None and not self._has_data(sock)):
             return
